@@ -18,11 +18,12 @@ Inductive sev :=
   | SOp (o : op)
   | SDhcp (tbl : list (addr * bytes))
   (* PUT /control/querylog/config/update; observed afterwards: enabled and
-     anonymize_client_ip of GET /control/querylog/config, and whether the shared
-     IPMut masks a probe address *)
-  | SConf (enabled anon : bool) (qrules : list bytes) (qign : list bool) (obs : bool * bool * bool)
+     anonymize_client_ip of GET /control/querylog/config, whether the IPMut handed
+     to querylog.New masks a probe address, and whether the function the DNS
+     server loads (Server.anonymizer, as dnsforward.NewServer set it) does *)
+  | SConf (enabled anon : bool) (qrules : list bytes) (qign : list bool) (obs : bool * bool * bool * bool)
   (* POST /control/querylog_config (deprecated), each field present or absent *)
-  | SLegacy (enabled anon : option bool) (obs : bool * bool * bool)
+  | SLegacy (enabled anon : option bool) (obs : bool * bool * bool * bool)
   (* PUT /control/stats/config/update: a new statistics ignore list *)
   | SStatsConf (srules : list bytes) (sign : list bool)
   | SFlush
@@ -57,31 +58,34 @@ Definition oracle (tbl : list (bytes * bool)) : bytes -> bool :=
   fun n => match bget n tbl with Some b => b | None => false end.
 
 Record rstate := {
-  r_ix : index; r_dhcp : list (addr * bytes); r_conf : qconf; r_qrules : list bytes;
+  r_ix : index; r_dhcp : list (addr * bytes); r_sys : sys; r_qrules : list bytes;
   r_qign : list (bytes * bool); r_srules : list bytes; r_sign : list (bytes * bool); r_st : store
 }.
 
-Definition env_of (refuse : bool) (r : rstate) : env :=
-  {| e_ix := r_ix r; e_dhcp := fun a => zget a (r_dhcp r); e_anon := qc_mut (r_conf r); e_qlog_enabled := qc_enabled (r_conf r); e_refuse_any := refuse;
-     e_qign := ignore_fn (r_qrules r) (oracle (r_qign r)); e_sign := ignore_fn (r_srules r) (oracle (r_sign r)) |}.
+Definition world_of (refuse : bool) (r : rstate) : world :=
+  {| w_ix := r_ix r; w_dhcp := fun a => zget a (r_dhcp r); w_refuse_any := refuse;
+     w_qign := ignore_fn (r_qrules r) (oracle (r_qign r)); w_sign := ignore_fn (r_srules r) (oracle (r_sign r)) |}.
+(** The logging stage loads the SERVER's mutator, the report the QUERY LOG's. *)
+Definition env_of (refuse : bool) (r : rstate) : env := env_at (r_sys r) (world_of refuse r).
+Definition env_rep (refuse : bool) (r : rstate) : env := env_report (r_sys r) (world_of refuse r).
 
 Definition set_ix ix (r : rstate) : rstate :=
-  {| r_ix := ix; r_dhcp := r_dhcp r; r_conf := r_conf r; r_qrules := r_qrules r; r_qign := r_qign r;
+  {| r_ix := ix; r_dhcp := r_dhcp r; r_sys := r_sys r; r_qrules := r_qrules r; r_qign := r_qign r;
      r_srules := r_srules r; r_sign := r_sign r; r_st := r_st r |}.
 Definition set_dhcp t (r : rstate) : rstate :=
-  {| r_ix := r_ix r; r_dhcp := t; r_conf := r_conf r; r_qrules := r_qrules r; r_qign := r_qign r;
+  {| r_ix := r_ix r; r_dhcp := t; r_sys := r_sys r; r_qrules := r_qrules r; r_qign := r_qign r;
      r_srules := r_srules r; r_sign := r_sign r; r_st := r_st r |}.
-Definition set_conf c (r : rstate) : rstate :=
-  {| r_ix := r_ix r; r_dhcp := r_dhcp r; r_conf := c; r_qrules := r_qrules r; r_qign := r_qign r;
+Definition set_sys c (r : rstate) : rstate :=
+  {| r_ix := r_ix r; r_dhcp := r_dhcp r; r_sys := c; r_qrules := r_qrules r; r_qign := r_qign r;
      r_srules := r_srules r; r_sign := r_sign r; r_st := r_st r |}.
 Definition set_qrules rules q (r : rstate) : rstate :=
-  {| r_ix := r_ix r; r_dhcp := r_dhcp r; r_conf := r_conf r; r_qrules := rules; r_qign := q;
+  {| r_ix := r_ix r; r_dhcp := r_dhcp r; r_sys := r_sys r; r_qrules := rules; r_qign := q;
      r_srules := r_srules r; r_sign := r_sign r; r_st := r_st r |}.
 Definition set_srules rules q (r : rstate) : rstate :=
-  {| r_ix := r_ix r; r_dhcp := r_dhcp r; r_conf := r_conf r; r_qrules := r_qrules r; r_qign := r_qign r;
+  {| r_ix := r_ix r; r_dhcp := r_dhcp r; r_sys := r_sys r; r_qrules := r_qrules r; r_qign := r_qign r;
      r_srules := rules; r_sign := q; r_st := r_st r |}.
 Definition set_st st (r : rstate) : rstate :=
-  {| r_ix := r_ix r; r_dhcp := r_dhcp r; r_conf := r_conf r; r_qrules := r_qrules r; r_qign := r_qign r;
+  {| r_ix := r_ix r; r_dhcp := r_dhcp r; r_sys := r_sys r; r_qrules := r_qrules r; r_qign := r_qign r;
      r_srules := r_srules r; r_sign := r_sign r; r_st := st |}.
 
 Definition eqb_lentry (a b : lentry) : bool :=
@@ -107,10 +111,16 @@ Definition counts_match {K} (eqb : K -> K -> bool) (l : list K) (tbl : list (K *
   forallb (fun kn => (count_of eqb (fst kn) l =? snd kn) && negb (snd kn =? 0)) tbl &&
   (N.of_nat (length l) =? fold_right (fun kn acc => snd kn + acc) 0 tbl).
 
-Definition conf_obs_ok (c : qconf) (obs : bool * bool * bool) : bool :=
+Definition conf_obs_ok (s : sys) (obs : bool * bool * bool * bool) : bool :=
   match obs with
-  | (e, a, m) => Bool.eqb (qc_enabled c) e && Bool.eqb (qc_anon c) a && Bool.eqb (qc_mut c) m
+  | (e, a, m, ms) =>
+      Bool.eqb (s_enabled s) e && Bool.eqb (s_anon s) a && Bool.eqb (qlog_anon s) m && Bool.eqb (srv_anon s) ms
   end.
+
+(** One operation of the histories the theorems are about ([hstep] of Model/LogPolicy). *)
+Definition do_hop (refuse : bool) (r : rstate) (o : hop) : rstate :=
+  let st := hstep (r_sys r, r_st r) o in
+  set_st (snd st) (set_sys (fst st) r).
 
 Definition stat_key (s : sentry) : bytes * bytes :=
   match s with (_, c, i) => (c, canon_ip i) end.
@@ -125,25 +135,25 @@ Definition stats_ok (ev : env) mac_of (st : store) obs_domains (obs_clients : li
 Definition step_ok (names : list bytes) refuse macs (r : rstate) (e : sev) : rstate * bool :=
   let mac_of := fun c => bget c macs in
   match e with
-  | SQuery q => (set_st (process (env_of refuse r) q (r_st r)) r, true)
+  | SQuery q => (do_hop refuse r (HQuery (world_of refuse r) q), true)
   | SOp o => (set_ix (fst (step c08_cfg (r_ix r) o)) r, true)
   | SDhcp t => (set_dhcp t r, true)
   | SConf e a rules q0 obs =>
       let q := combine names q0 in
-      let c := conf_step (r_conf r) (CPut e a) in
-      (set_qrules rules q (set_conf c r), conf_obs_ok c obs && table_agrees rules q)
+      let r' := do_hop refuse r (HConf (CPut e a)) in
+      (set_qrules rules q r', conf_obs_ok (r_sys r') obs && table_agrees rules q)
   | SLegacy e a obs =>
-      let c := conf_step (r_conf r) (CLegacy e a) in
-      (set_conf c r, conf_obs_ok c obs)
+      let r' := do_hop refuse r (HConf (CLegacy e a)) in
+      (r', conf_obs_ok (r_sys r') obs)
   | SStatsConf rules q0 =>
       let q := combine names q0 in
       (set_srules rules q r, table_agrees rules q)
-  | SFlush => (set_st (flush (r_st r)) r, true)
-  | SRotate => (set_st (rotate (r_st r)) r, true)
-  | SRoll => (set_st (roll (r_st r)) r, true)
+  | SFlush => (do_hop refuse r HFlush, true)
+  | SRotate => (do_hop refuse r HRotate, true)
+  | SRoll => (do_hop refuse r HRoll, true)
   | SSearch obs =>
       (r, same_multiset eqb_lentry
-            (map canon_entry (search_report (env_of refuse r) mac_of (r_st r))) obs)
+            (map canon_entry (search_report (env_rep refuse r) mac_of (r_st r))) obs)
   | SStats od oc ot => (r, stats_ok (env_of refuse r) mac_of (r_st r) od oc ot)
   end.
 
@@ -166,7 +176,7 @@ Definition init_store : store :=
   {| st_mem := []; st_file := []; st_has_file := true; st_old := []; st_stats := []; st_units := [] |}.
 
 Definition init_state anon qrules qign srules sign : rstate :=
-  {| r_ix := empty_index; r_dhcp := []; r_conf := conf_init true anon; r_qrules := qrules; r_qign := qign;
+  {| r_ix := empty_index; r_dhcp := []; r_sys := init_dns true anon; r_qrules := qrules; r_qign := qign;
      r_srules := srules; r_sign := sign; r_st := init_store |}.
 
 Definition case_ok (c : case) : bool :=
